@@ -3,7 +3,7 @@ checked against the closing state machine of the property statement."""
 import random
 
 from . import specexec as S
-from .memsock import MemSock
+from .memsock import MemSock, HarnessHang
 
 KEY = b"\x01\x02\x03\x04"
 OPS = ["send", "recv", "ping", "close", "close_bad", "send_close", "send_close_bad", "shutdown", "recv", "close"]
@@ -65,6 +65,9 @@ def run_history(hist):
                 ws.send_close(-1)
             elif op == "shutdown":
                 ws.shutdown()
+        except HarnessHang as ex:
+            problems.append(f"step {i} {op}: endless read loop after the end of the stream ({ex})")
+            break
         except Exception as ex:  # noqa
             exc = ex
         name = type(exc).__name__ if exc else None
